@@ -221,3 +221,33 @@ Definition CInv (s : cstate) : Prop :=
                      c_alloc ci = true -> c_alloc cj = true -> fst (c_raw ci) <> fst (c_raw cj)) /\
   (forall a, hfind a (hp_blocks (fst s)) <> None ->
              exists i c, nth_error (snd s) i = Some c /\ c_alloc c = true /\ fst (c_raw c) = a).
+
+(** * Batch adoption ([entities/sealed/storage.rs] extend_components)
+    [World::extend] hands over one caller-built [Vec<C>] per column.  If the column is empty AND owns no
+    allocation (capacity 0), the caller's Vec is ADOPTED: its raw parts become the column's.  Otherwise the
+    values are appended ([v.extend(..)] = reserve, then pushes that find room).  Whether the capacity is
+    tested — not only the length — is read off the source ([fact_adopt_requires_no_allocation]): without
+    the test, a column emptied by [clear] (length 0, capacity kept) would drop its block on the floor. *)
+Definition cadopt (s : cstate) (i : nat) (vals : list val) (spare : nat) : option cstate :=
+  with_col s i (fun c =>
+    let cap := length vals + spare in
+    if c_zst c then Some (fst s, mkCol true (c_elem c) (c_raw c) (length vals))
+    else if Nat.eqb cap 0 then Some (fst s, mkCol false (c_elem c) (0, 0) 0)
+    else let h := fst s in
+         Some (mkHeap ((hp_next h, mkBlock (c_elem c) cap (map Some vals ++ repeat None spare)) :: hp_blocks h) (S (hp_next h)),
+               mkCol false (c_elem c) (hp_next h, cap) (length vals))).
+
+Definition cextend_ops (i : nat) (vals : list val) (want : nat) : list cop :=
+  CReserve i (length vals) want :: map (fun x => CPush i x 0) vals.
+
+Definition cextend (guard : bool) (s : cstate) (i : nat) (vals : list val) (spare want : nat) : option cstate :=
+  match nth_error (snd s) i with
+  | None => Some s
+  | Some c =>
+      if Nat.eqb (c_len c) 0 && (negb guard || Nat.eqb (snd (c_raw c)) 0) && negb (c_zst c)
+      then cadopt s i vals spare
+      else crun true true true s (cextend_ops i vals want)
+  end.
+
+Definition cextend_src (s : cstate) (i : nat) (vals : list val) (spare want : nat) : option cstate :=
+  cextend fact_adopt_requires_no_allocation s i vals spare want.
